@@ -1080,18 +1080,34 @@ func (fr *Frame) runCallbackWith(fv Value, pc *Term, st *State, pos string, cond
 		havoc()
 		pres.assume(fr, pc, st)
 	}
+	var params []Value
+	for _, p := range cl.Fn.Params {
+		params = append(params, x.freshValue(p.Type(), "cb_"+p.Name()))
+	}
 	if cct := x.W.ContractFor(cl.Fn); cct != nil {
 		// verified separately against its own contract; its preconditions
-		// must hold whenever the external function may call it
-		fr.checkClosureRequires(cct, cl, pc, st, pos)
+		// must hold whenever the external function may call it (with the arguments the
+		// external function's contract promises: "calls f with <cond>")
+		if cond != nil && cenv != nil {
+			ne := *cenv
+			ne.vars = map[string]SV{}
+			for k, v := range cenv.vars {
+				ne.vars[k] = v
+			}
+			for i, p := range params {
+				ne.vars[fmt.Sprintf("arg%d", i)] = svValue(p)
+			}
+			var t *Term
+			if err := safeEval(func() { t = ne.Bool(cond) }); err != nil {
+				panic(stopExec{"calls ... with: " + err.Error()})
+			}
+			x.assume(pc, t, "callback argument constraint")
+		}
+		fr.checkClosureRequires(cct, cl, params, pc, st, pos)
 		return nil
 	}
 	if fr.depth >= maxInlineDepth || x.onStack(cl.Fn) {
 		return nil
-	}
-	var params []Value
-	for _, p := range cl.Fn.Params {
-		params = append(params, x.freshValue(p.Type(), "cb_"+p.Name()))
 	}
 	if cond != nil && cenv != nil {
 		ne := *cenv
@@ -1270,7 +1286,7 @@ func (pe *presEval) assume(fr *Frame, pc *Term, st *State) {
 // checkClosureRequires: a closure with its own contract is handed to code
 // that will call it: the closure's requires (over its captured variables)
 // must hold now.
-func (fr *Frame) checkClosureRequires(cct *Contract, cl *FuncVal, pc *Term, st *State, pos string) {
+func (fr *Frame) checkClosureRequires(cct *Contract, cl *FuncVal, params []Value, pc *Term, st *State, pos string) {
 	x := fr.x
 	if !x.mode.Functional || len(cct.Requires) == 0 {
 		return
@@ -1291,8 +1307,12 @@ func (fr *Frame) checkClosureRequires(cct *Contract, cl *FuncVal, pc *Term, st *
 		}
 		env.vars[fv.Name()] = svValue(cl.Bind[i])
 	}
-	for _, p := range cl.Fn.Params {
-		env.vars[p.Name()] = svValue(x.freshValue(p.Type(), "cbp_"+p.Name()))
+	for i, p := range cl.Fn.Params {
+		if i < len(params) {
+			env.vars[p.Name()] = svValue(params[i])
+		} else {
+			env.vars[p.Name()] = svValue(x.freshValue(p.Type(), "cbp_"+p.Name()))
+		}
 	}
 	for _, rq := range cct.Requires {
 		if !x.active(rq) {
